@@ -457,10 +457,12 @@ def build_evidence(pid, tier, seed, h, jobs, per_job, total, wall, complete, vio
         "jobs": [{"name": jobs[j].get("name"), **pj["stats"].as_dict(), "tasks": pj["tasks"],
                   "cpu_s": round(pj["wall"], 2)} for j, pj in enumerate(per_job)],
         "evaluations": total.paths,
-        "distinct_nontrivial": total.forks + sum(1 for pj in per_job if pj["stats"].paths > 0),
-        "rule": ("one evaluation = one complete execution path of the harness (distinct decision prefix => distinct "
-                 "path condition / schedule); counted non-trivial: paths created by a fork on a symbolic input "
-                 "condition (forks) plus the root path of each job"),
+        "distinct_nontrivial": total.nontrivial,
+        "rule": ("one evaluation = one execution path of the harness, identified by its decision prefix (distinct prefix => "
+                 "distinct path condition / schedule / history, so paths are distinct by construction); a path is counted "
+                 "non-trivial when it took at least one decision (a solver-decided branch on a symbolic condition or a bounded "
+                 "choice) -- measured per path; 'forks' separately counts the branches where both outcomes were feasible"),
+        "forks_on_symbolic_conditions": total.forks,
         "samples": samples[:6] or [{"note": "no completed path"}],
         "queries_discharged": total.queries,
         "final_queries": total.asserts_reached,
